@@ -464,7 +464,7 @@ Qed.
 
 (* the content of a code span may hold every delimiter of the core tokens: it stays text *)
 Example code_span_instance :
-  (code_ok ($"call ") ($"f(*a, **b)[0] _x_ ![i](u)") ($" now.") = true) /\
+  (code_ok ($"call ") ($"f(a, *b, **c)[0] _x_ ![i](u)") ($" now.") = true) /\
   (code_of ($" x ") = InlineCode (mkCode [96] [32] ($"x"))) /\ (code_of ($"  ") = InlineCode (mkCode [96] [] ($"  "))) /\
   (code_ok [] ($"a`b") [] = false) /\ (code_ok [] [] [] = false) /\ (code_ok [] ($"a<b") [] = false).
 Proof. vm_compute. repeat split; reflexivity. Qed.
